@@ -19,7 +19,9 @@
    correspondence run, never verified):
    * Rust [format!("{:.N}")] / [format!("{:.Ne}")] on f64: the correctly rounded
      (round-half-even) decimal of the exact binary value, with a panic when the
-     precision argument exceeds u16::MAX ([fmt_fixed] / [fmt_exp]);
+     precision argument exceeds u16::MAX ([fmt_fixed]) or, for {:e}, reaches it
+     ([fmt_exp]); since /repo a32ed0a (and its follow-up for {:e}) the renderers
+     cap the precision they pass and append zeros;
    * Rust [f64::to_string]: shortest digits that round-trip, positional
      ([display_abs]);
    * libm [log10] followed by [floor] is the Section variable [log10_floor]. *)
@@ -177,10 +179,13 @@ Definition digits_val (ds : list N) : N := fold_left (fun acc d => acc * 10 + (d
 Definition u32_max : N := 4294967295.
 
 (* fn parse_format_field_width *)
+Definition starts_with (c : N) (rem : str) : option str :=    (* str::strip_prefix(char) *)
+  match rem with a :: r => if a =? c then Some r else None | [] => None end.
+
 Definition parse_field_width (rem : str) : res (option fwidth * str) :=
-  match rem with
-  | 42 (* * *) :: r => Ok (Some FExternal, r)
-  | _ =>
+  match starts_with 42 (* * *) rem with
+  | Some r => Ok (Some FExternal, r)
+  | None =>
       let (ds, t) := take_digits rem in
       match ds with
       | [] => Ok (None, rem)
@@ -191,11 +196,11 @@ Definition parse_field_width (rem : str) : res (option fwidth * str) :=
 
 (* fn parse_format_prec *)
 Definition parse_prec (rem : str) : res (option fwidth * str) :=
-  match rem with
-  | 46 (* . *) :: rc =>
-      match rc with
-      | 42 :: r => Ok (Some FExternal, r)
-      | _ =>
+  match starts_with 46 (* . *) rem with
+  | Some rc =>
+      match starts_with 42 rc with
+      | Some r => Ok (Some FExternal, r)
+      | None =>
           let (ds, t) := take_digits rc in
           match ds with
           | [] => match rc with [] => Err ETruncated | _ => Err EMissingPrecDigits end
@@ -203,16 +208,22 @@ Definition parse_prec (rem : str) : res (option fwidth * str) :=
                  if u32_max <? v then Err EPrecTooLarge else Ok (Some (FInline v), t)
           end
       end
-  | _ => Ok (None, rem)
+  | None => Ok (None, rem)
   end.
 
 (* fn parse_format_length_modifier *)
 Definition parse_len_mod (rem : str) : option lenmod * str :=
-  match rem with
-  | 104 (* h *) :: r => (Some LH, r)
-  | 108 (* l *) :: r => (Some LLowerL, r)
-  | 76 (* L *) :: r => (Some LUpperL, r)
-  | _ => (None, rem)
+  match starts_with 104 (* h *) rem with
+  | Some r => (Some LH, r)
+  | None =>
+      match starts_with 108 (* l *) rem with
+      | Some r => (Some LLowerL, r)
+      | None =>
+          match starts_with 76 (* L *) rem with
+          | Some r => (Some LUpperL, r)
+          | None => (None, rem)
+          end
+      end
   end.
 
 (* fn parse_format_conv_type *)
@@ -407,7 +418,9 @@ Definition fmt_fixed (x : f64) (p : N) : res str :=
 
 (* format!("{value_abs:.prec$e}") split at the 'e': (digits, exponent) *)
 Definition fmt_exp (x : f64) (p : N) : res (str * Z) :=
-  if fmt_prec_max <? p then Panic "format.rs:render_float_exp:format! precision above u16::MAX"
+  (* LowerExp asks flt2dec for p + 1 digits in a u16: 65535 + 1 wraps to 0 and trips
+     [assert!(ndigits > 0)]; above that the format! argument itself is refused *)
+  if fmt_prec_max <=? p then Panic "format.rs:render_float_exp:format! precision + 1 above u16::MAX"
   else match x with
        | S754_zero _ => Ok (repeatN 48 (p + 1), 0%Z)
        | S754_finite _ m e => Ok (exp_parts (Z.pos m) e p)
@@ -455,9 +468,17 @@ Fixpoint shortest_search (fuel : nat) (m e E : Z) (boundary : bool) (n : Z) : Z 
       else shortest_search f m e E boundary (n + 1)
   end.
 
+(* the upper candidate may be a power of ten (one digit more): drop trailing zeros *)
+Fixpoint strip_zeros (fuel : nat) (d k : Z) : Z * Z :=
+  match fuel with
+  | O => (d, k)
+  | S f => if (d mod 10 =? 0) && negb (d =? 0) then strip_zeros f (d / 10) (k + 1) else (d, k)
+  end.
+
 Definition shortest (m e : Z) : Z * Z :=
   let boundary := (m =? 2 ^ 52) && (-1074 <? e) in
-  shortest_search 17 m e (ilog10 m e) boundary 1.
+  let '(d, k) := shortest_search 17 m e (ilog10 m e) boundary 1 in
+  strip_zeros 20 d k.
 
 (* positional rendering of d * 10^k (d > 0) *)
 Definition positional (d k : Z) : str :=
@@ -481,6 +502,14 @@ Definition display_abs (x : f64) : str :=
   | S754_infinity _ => s_inf
   | S754_nan => s_nan
   end.
+
+(* Display of the integer-valued double whose exact value is n (value.trunc().abs()) *)
+Definition display_int (n : N) : str :=
+  if (n <? 2 ^ 53)%N then dec_digits n
+  else match f_of_N n with
+       | S754_finite _ m e => let '(d, k) := shortest (Z.pos m) e in positional d k
+       | _ => [ch_0]
+       end.
 
 (* format!("{n}") *)
 Definition display (x : f64) : str :=
@@ -536,7 +565,9 @@ Fixpoint strip_dot_suffix (s : str) : str :=
 (* fn render_float_def *)
 Definition render_float_def (value : f64) (prec zero_pad : N) (plus blank ensure_pt trim_zeros : bool)
   : res str :=
-  do digits_str <- fmt_fixed (f_abs value) prec;
+  let fmt_prec := N.min prec fmt_prec_max in
+  do digits_str <- fmt_fixed (f_abs value) fmt_prec;
+  let digits_str := digits_str ++ repeatN 48 (prec - fmt_prec) in
   let digits_str :=
     if (prec =? 0) && ensure_pt then digits_str ++ [46]
     else if negb (prec =? 0) && trim_zeros then
@@ -553,7 +584,9 @@ Definition exp_suffix (E : Z) : str :=
 (* fn render_float_exp *)
 Definition render_float_exp (value : f64) (prec zero_pad : N)
            (plus blank ensure_pt trim_zeros uppercase : bool) : res str :=
-  do (ds, E) <- fmt_exp (f_abs value) prec;
+  let fmt_prec := N.min prec (fmt_prec_max - 1) in
+  do (ds, E) <- fmt_exp (f_abs value) fmt_prec;
+  let ds := ds ++ repeatN 48 (prec - fmt_prec) in     (* mant_padded *)
   let mant_str := match ds with
                   | d0 :: rest => if prec =? 0 then [d0] else d0 :: 46 :: rest
                   | [] => [] end in
@@ -588,8 +621,8 @@ Definition do_format_code (c : code) (fwv precv : N) (value : fval) : res str :=
   match ctype c with
   | CDecimal =>
       do x <- need_num NDec value;
-      let digits_str := match f_trunc_Z x with
-                        | Some z => display_abs (f_of_Z z)
+      let digits_str := match trunc_mag x with
+                        | Some mag => display_int mag
                         | None => display_abs x end in
       Ok (decorate_digits digits_str (is_neg_trunc x) zp iprec (fl_plus fl) (fl_blank fl))
   | COctal =>
@@ -622,8 +655,8 @@ Definition do_format_code (c : code) (fwv precv : N) (value : fval) : res str :=
       else
         let digits_before_pt :=
           if f_ltb (f_abs x) f_one then 1
-          else match f_trunc_Z (f_abs x) with
-               | Some z => lenN (display_abs (f_of_Z z))
+          else match trunc_mag x with
+               | Some mag => lenN (display_int mag)
                | None => lenN (display_abs (f_abs x)) end in
         render_float_def x (fpprec - digits_before_pt) zp (fl_plus fl) (fl_blank fl) (fl_alt fl)
                          (negb (fl_alt fl))
@@ -646,8 +679,9 @@ Definition do_format_code (c : code) (fwv precv : N) (value : fval) : res str :=
 
 (* the padding step of do_std_format_codes_array_3 / _object_2 *)
 Definition field_pad (s : str) (fwv : N) (left : bool) : str :=
-  if utf8_len s <? fwv then                      (* s.len() < fw : BYTE length *)
-    let pad_len := fwv - lenN s in               (* fw - s.chars().count() *)
+  let s_chars := lenN s in                       (* s.chars().count() *)
+  if s_chars <? fwv then
+    let pad_len := fwv - s_chars in
     if left then s ++ repeatN 32 pad_len else repeatN 32 pad_len ++ s
   else s.
 
@@ -668,8 +702,16 @@ Definition take_width (w : option fwidth) (rest : list fval) (used : N)
       end
   end.
 
-Definition wtmp_value (w : wtmp) : fval :=
-  match w with WNone => VNum F64.f_zero | WInline v => VNum (f_of_N v) | WThunk t => t end.
+(* the value the width/precision slot evaluates to, then [float::try_to_u32].
+   An inline u32 goes through [PushU32AsValue] (f64::from(u32)) and comes back
+   unchanged: u32 -> f64 -> u32 is exact. *)
+Definition eval_width (w : wtmp) (not_number : vtype -> ferr) (bad_value : ferr) : res N :=
+  match w with
+  | WNone => Ok 0
+  | WInline v => Ok v
+  | WThunk (VNum x) => match try_to_u32 x with Some v => Ok v | None => Err bad_value end
+  | WThunk v => Err (not_number (type_of v))
+  end.
 
 (* states Array1 -> Array2 -> (StdFormatCode) -> Array3 for one directive *)
 Definition array_code (c : code) (rest : list fval) (used : N) : res (str * list fval * N) :=
@@ -678,21 +720,11 @@ Definition array_code (c : code) (rest : list fval) (used : N) : res (str * list
   let total := used + lenN rest in
   do precv <-
      (match prec c with
-      | Some _ =>
-          if uses_prec (ctype c) then
-            match wtmp_value prt with
-            | VNum x => match try_to_u32 x with Some v => Ok v | None => Err EBadPrecValue end
-            | v => Err (EPrecNotNumber (type_of v))
-            end
-          else Ok 0
+      | Some _ => if uses_prec (ctype c) then eval_width prt EPrecNotNumber EBadPrecValue else Ok 0
       | None => Ok 0 end);
   do fwv <-
      (match fw c with
-      | Some _ =>
-          match wtmp_value fwt with
-          | VNum x => match try_to_u32 x with Some v => Ok v | None => Err EBadWidthValue end
-          | v => Err (EWidthNotNumber (type_of v))
-          end
+      | Some _ => eval_width fwt EWidthNotNumber EBadWidthValue
       | None => Ok 0 end);
   if conv_eqb (ctype c) CPercent then
     Ok (field_pad [37] fwv (fl_left (flags c)), rest, used)
